@@ -32,7 +32,7 @@ def gen_encoded_header(workdir):
     open(os.path.join(d, 'fft4g_cache_enc.h'), 'w').write(src)
 
 
-def cache_obl(threads, calls, kf=None, timeout=900, tiers=('quick', 'thorough'), len4=0, warm=0):
+def cache_obl(threads, calls, kf=None, timeout=2400, tiers=('quick', 'thorough'), len4=0, warm=0):
     return Obl(name='fftcache_t%d_c%d%s%s%s' % (threads, calls, '_lazyinit' if kf else '', '_len4' if len4 else '', '_warm%d' % warm if warm else ''), src='c17_cache.c',
                defs=['-DVF_THREADS=%d' % threads, '-DVF_CALLS=%d' % calls] + (['-DVF_LEN4'] if len4 else []) + (['-DVF_WARM=%d' % warm] if warm else []), ccflags=['-I' + os.path.join(runner.HARNESS, 'include', 'omp_model')],
                unwind=max(calls, threads) + 2, checks='none', slice=False, extra=['--sat-solver', 'cadical'], timeout=timeout, tiers=tiers, kf=kf, native=False, ndebug=False, mem_gb=24,
